@@ -87,7 +87,7 @@ pub struct WrapCase {
     pub extra_max_wrap: Option<usize>,
 }
 
-const SEPS: &[&str] = &[" ", "  ", "\n", " \t ", "\r\n", " <!--x--> ", "<!--x--> ", "<span></span> ", " <b></b>", "<em> </em>", "\u{a0}", " \u{a0}\n", "<span> </span>", "<span>\n</span>", "<u> </u>", "<strong><span> </span></strong>", "<font>\t</font>", "<span><span> </span></span>"];
+const SEPS: &[&str] = &[" ", "  ", "\n", " \t ", "\r\n", " <!--x--> ", "<!--x--> ", "<span></span> ", " <b></b>", "<em> </em>", "\u{a0}", " \u{a0}\n", "<span> </span>", "<span>\n</span>", "<u> </u>", "<strong><span> </span></strong>", "<font>\t</font>", "<span><span> </span></span>", "\u{3000}", " \u{3000}", "\u{3000}\n", "\u{2003}", "<span>\u{3000}</span>", "\u{205f} "];
 const TAGS: &[&str] = &["", "em", "strong", "code", "span", "a", "i", "u"];
 
 pub fn build_html(case: &WrapCase) -> String {
